@@ -385,6 +385,15 @@ Fixpoint fexpr (e : expr) : bool :=
   | _ => false
   end.
 
+(* no calls inside the fragment: the left operand of a concatenation is never copied early (7366b9f) *)
+Lemma has_call_fexpr : forall e, fexpr e = true -> has_call e = false.
+Proof.
+  induction e; cbn [fexpr has_call]; intro F; try discriminate F; try reflexivity; auto.
+  all: apply andb_true_iff in F; destruct F as [Fa Fb]; rewrite (IHe1 Fa), (IHe2 Fb); reflexivity.
+Qed.
+Lemma early_copy_fexpr : forall cs a b ra, fexpr b = true -> early_copy cs a b ra = false.
+Proof. intros cs a b ra F. unfold early_copy. destruct ra; try reflexivity. rewrite (has_call_fexpr b F). reflexivity. Qed.
+
 Definition res_ok (r : res) (cs : cstate) (T : list nat) (G' : ost) : Prop :=
   match r with
   | RPrim => True
@@ -602,6 +611,7 @@ Section Expr.
         destruct P1 as [A1 [A2 [A3 [A4 [A5 [A6 A7]]]]]]. repeat (split; [assumption|]). exact A7.
     - (* EConcat *) apply andb_true_iff in F. destruct F as [Fa Fb].
       destruct (cexpr inl sg e1 cst) as [[[ia ra] cs1]|] eqn:Ea; [|discriminate H].
+      rewrite (early_copy_fexpr cs1 e1 e2 ra Fb) in H.
       destruct (cexpr inl sg e2 cs1) as [[[ib rb] cs2]|] eqn:Eb; [|discriminate H].
       destruct (IHe1 Fa _ _ _ _ G K Ea R) as [G1 [T1 [C1 P1]]].
       destruct (IHe2 Fb _ _ _ _ G1 K Eb (proj1 P1)) as [G2 [T2 [C2 P2]]].
